@@ -2,6 +2,7 @@
 import json
 import os
 import random
+import re
 import sys
 from fractions import Fraction as Fr
 
@@ -30,7 +31,22 @@ def candidates():
         route = rng.choice([0, 1])
         d_ = "%s s<%s,%d> -> s<%s,%d> %s" % (m[1], s[1], se, d[1], de, "convert" if route == 0 else "wrapped")
         out.setdefault(d_, ("conv", "c08::rconv<c08::%s,%s,%d,%s,%d,%d>" % (m[0], s[0], se, d[0], de, route)))
-    while len([1 for v in out.values() if v[0] == "float"]) < 600:
+    ELS = [("cnl::elastic_integer<20>", "e20"), ("cnl::elastic_integer<33>", "e33"), ("cnl::elastic_integer<40>", "e40"), ("cnl::elastic_integer<62>", "e62"), ("cnl::elastic_integer<40,unsigned>", "e40u"), ("cnl::elastic_integer<12,short>", "e12s"),
+           ("cnl::elastic_integer<70>", "e70"), ("cnl::elastic_integer<100>", "e100"), ("cnl::elastic_integer<70,unsigned>", "e70u")]
+    for sc, sn in ELS:
+        for shift in [1, 7, 15, 16, 30, 31, 32, 33, 47, 62, 63, 64]:
+            for m in MODES:
+                dc, dn = rng.choice(ELS)
+                se = rng.choice([-40, -31, -20, -8, 0])
+                d_ = "%s s<%s,%d> -> s<%s,%d> convert" % (m[1], sn, se, dn, se + shift)
+                out.setdefault(d_, ("conv", "c08::rconv<c08::%s,%s,%d,%s,%d,0>" % (m[0], sc, se, dc, se + shift)))
+    for f in FLOATS[1:]:
+        for d in INTS[4:]:
+            for m in MODES:
+                for de in [-130, -127, -100, -64, 64, 100, 130]:
+                    d_ = "%s %s -> s<%s,%d> convert" % (m[1], f[1], d[1], de)
+                    out.setdefault(d_, ("float", "c08::rfloat<c08::%s,%s,%s,%d,0>" % (m[0], f[0], d[0], de)))
+    while len([1 for v in out.values() if v[0] == "float"]) < 1100:
         f = rng.choice(FLOATS); d = rng.choice(INTS); m = rng.choice(MODES)
         de = rng.choice([0, 0, 0, -1, -4, -8, -16, 1, 3, 8])
         route = rng.choice([0, 1])
@@ -44,6 +60,23 @@ def load():
         return json.load(f)
 
 
+def critical(k):
+    """kernels that every quick run contains: parameters sitting on a representation boundary of the operation itself"""
+    d = k["desc"].split()
+    if k["kind"] == "conv":
+        # elastic source wider than a shift that equals the digit count of a built-in storage type (7/15/31/63): the divisor 2^shift
+        # is the first value that does not fit that type
+        m = re.match(r"s<e(\d+)([us]?),(-?\d+)>", d[1])
+        m2 = re.match(r"s<[^,]+,(-?\d+)>", d[3])
+        if m and m2:
+            shift = int(m2.group(1)) - int(m.group(3))
+            return int(m.group(1)) > shift and (shift in (31, 63) or (shift in (7, 15) and m.group(2) == "s"))
+        return False
+    # floating source, destination exponent at the edge of float's exponent range (2^-E or 2^(E-1) not representable in float)
+    m = re.match(r"s<i64,(-?\d+)>", d[3])
+    return bool(m) and abs(int(m.group(1))) >= 126 and d[1] in ("f64", "f80")
+
+
 def select(tier, seed):
     uni = load()["kernels"]
     rng = random.Random("C09-%d" % seed)
@@ -51,7 +84,7 @@ def select(tier, seed):
     for kind, ncore, nq in (("conv", 60, 220), ("float", 40, 120)):
         u = [k for k in uni if k["kind"] == kind]
         n = nq if tier == "quick" else len(u)
-        chosen = u[:ncore]
+        chosen = u[:ncore] + [k for k in u[ncore:] if critical(k)]
         # stratify: one kernel of every (mode, source type / source width, destination width class, integer-vs-scaled destination, route) group first
         groups = {}
         for k in u[ncore:]:
@@ -59,7 +92,9 @@ def select(tier, seed):
             key = (d[0], d[1][:3] if kind == "float" else d[1][2:5], "64" in d[3], "s<" in d[3], d[-1])
             groups.setdefault(key, []).append(k)
         for key in sorted(groups):
-            chosen.append(rng.choice(groups[key]))
+            c = rng.choice(groups[key])
+            if c not in chosen:
+                chosen.append(c)
         rest = [k for k in u[ncore:] if k not in chosen]
         chosen += rng.sample(rest, max(0, min(len(rest), n - len(chosen))))
         out += chosen
